@@ -220,6 +220,70 @@ def walkprog(rng):
     return Prog(Fn("flag", [("b", "i32")], "bool", Ret(Bin("eq", "i32", V("b"), I("i32", 1)))), Main(*body))
 
 
+
+def raw_cases(rng, tier):
+    """Ferret text programs outside the Core DSL: index arithmetic on UNSIGNED variables at the wrap-around boundary, a parameter shadowing a
+    module-level constant, casts in the index.  -> (name, text, true index or None, array values)"""
+    out = []
+    for q in range(12 if tier == "quick" else 120):
+        t = rng.choice(["u8", "u16", "u32", "u32"])
+        bits = int(t[1:]); m = 1 << bits
+        n = 2 + rng.below(4)
+        vals = [10 * (j + 1) + rng.below(9) for j in range(n)]
+        op = rng.choice(["-", "+", "*"])
+        if op == "-": k, c = rng.below(3), 1 + rng.below(3)
+        elif op == "+": k, c = m - 1 - rng.below(3), 1 + rng.below(4)
+        else: k, c = (m // 2) + rng.below(3), 2
+        true = {"-": k - c, "+": k + c, "*": k * c}[op] % m
+        decl = rng.choice(["let", "const"])
+        text = 'import "std/io";\nfn main() {\n    let a: [%d]i32 = [%s];\n    %s k: %s = %d;\n    io::Println(1);\n    io::Println(a[k %s %d]);\n    io::Println(2);\n}\n' % (n, ", ".join(map(str, vals)), decl, t, k, op, c)
+        out.append(("unsigned-%s-%s" % (t, {"-": "sub", "+": "add", "*": "mul"}[op]), text, true, vals))
+    for q in range(4 if tier == "quick" else 24):
+        n = 3 + rng.below(3); vals = [10 * (j + 1) + rng.below(9) for j in range(n)]
+        cv, pv = rng.below(n), rng.below(n)
+        text = 'import "std/io";\nconst N: i32 = %d;\nfn get(a: [%d]i32, N: i32) -> i32 { return a[N]; }\nfn main() {\n    let a: [%d]i32 = [%s];\n    io::Println(1);\n    io::Println(get(a, %d));\n    io::Println(2);\n}\n' % (cv, n, n, ", ".join(map(str, vals)), pv)
+        out.append(("param-shadows-const", text, pv, vals))
+    for t in ["u8", "u16", "u32", "u64"]:               # every (target type, operand) pair: the buggy folds need a small negative operand AND an array long enough
+        m = 1 << int(t[1:])
+        for v in [-1, -2, -3, -100, -(m // 2) + 1, -(m // 2), m - 1, 1, 0, (-m + 1) if t != "u64" else -5]:
+            n = 3 + rng.below(3); vals = [10 * (j + 1) + rng.below(9) for j in range(n)]
+            true = v % m
+            text = 'import "std/io";\nfn main() {\n    let a: [%d]i32 = [%s];\n    io::Println(1);\n    io::Println(a[(%d) as %s]);\n    io::Println(2);\n}\n' % (n, ", ".join(map(str, vals)), v, t)
+            out.append(("cast-index-%s" % t, text, true, vals))
+            if tier != "quick" or v in (-1, -2):
+                text2 = 'import "std/io";\nfn main() {\n    let a: [%d]i32 = [%s];\n    let c: %s = (%d) as %s;\n    io::Println(1);\n    io::Println(a[c]);\n    io::Println(2);\n}\n' % (n, ", ".join(map(str, vals)), t, v, t)
+                out.append(("cast-let-index-%s" % t, text2, true, vals))
+    return out
+
+
+def check_raw(rep, rng, tier, st):
+    cases = raw_cases(rng, tier)
+    res = run_many([{"files": {"main.fer": c[1]}, "mode": "run", "timeout": 30} for c in cases])
+    st["raw"] = {"cases": len(cases), "accepted": 0, "rejected": 0}
+    for (name, text, true, vals), r in zip(cases, res):
+        n = len(vals)
+        if os.environ.get("VERIF_DEBUG"): log("raw %s true=%s n=%d rc=%s lines=%s run=%s" % (name, true, n, r.compile_rc, r.lines, r.run_rc))
+        key = "raw:%s:%s" % (name, hashlib.sha1(text.encode()).hexdigest()[:10])
+        rp = {"kind": "input", "files": {"main.fer": text}, "true_index": true, "cmd": "ferret -o out main.fer && ./out"}
+        if r.compile_rc not in (0, 1):
+            rep.fail("crash:" + key, "compiler crashed on %s" % name, rp); continue
+        if r.compile_rc == 1:
+            st["raw"]["rejected"] += 1
+            codes = [d[1] for d in r.diags if d[0] == "error"]
+            if true < n and codes and all(c == "T0009" for c in codes):
+                rep.fail("misreject:" + key, "index arithmetic whose run-time value is %d (in range of the %d-element array) is rejected as out of bounds: %s" % (true, n, [d[2][:80] for d in r.diags][:1]), rp)
+            continue
+        st["raw"]["accepted"] += 1
+        if true < n:
+            want, wantrc = ["1", str(vals[true]), "2"], 0
+            if r.lines != want or r.run_rc != 0:
+                rep.fail("wrong:" + key, "accepted program (%s): the index has the value %d, the program prints %s (exit %s), expected %s" % (name, true, r.lines, r.run_rc, want), dict(rp, expected=want, observed=r.lines))
+        else:
+            if r.run_rc == 0 or r.lines != ["1"]:
+                rep.fail("oob:" + key, "accepted program (%s): the index has the value %d, outside the %d-element array, yet the access is neither rejected nor stopped by a panic: prints %s (exit %s)" % (name, true, n, r.lines, r.run_rc),
+                         dict(rp, expected="compile error or panic after printing 1", observed=r.lines))
+
+
 KINDS = ["literal", "const", "let", "arith", "oob-literal", "oob-const", "reassigned", "branch", "loop", "arith-reassigned", "incdec", "opaque", "struct-field-array", "random", "walk"]
 # regression witnesses of F2 (fixed in /repo 7f48bdd): flow-insensitive constant propagation of `let` indices
 KNOWN = {
@@ -267,6 +331,7 @@ def main():
             rep.fail(key, "accepted fixed-array program (%s index) misbehaves: %s" % (kind, c[:200]),
                      {"kind": "input", "files": {"main.fer": m["text"]}, "expected": {"lines": m["lines"], "term": m["term"]}, "observed": {"lines": r.lines[:20], "exit": r.run_rc},
                       "cmd": "ferret -o out main.fer && ./out"})
+    check_raw(rep, rng, tier, st)
     # the literal / const kinds must not all be rejected (the check would be vacuous)
     for k in ("literal", "const", "let", "struct-field-array"):
         if st[k]["accepted"] == 0:
